@@ -140,7 +140,10 @@ var TypeSyntaxWriter dsl.TypeSyntaxWriter[string] = func(self dsl.TypeSyntaxWrit
 				}
 			}
 
-			typeSyntax = fmt.Sprintf("%s[%s]", typeName, strings.Join(typeArguments, ", "))
+			if len(typeArguments) > 0 {
+				// a type parameter that only occurs inside the arguments of an array's element type is not a parameter of the Python class
+				typeSyntax = fmt.Sprintf("%s[%s]", typeName, strings.Join(typeArguments, ", "))
+			}
 		}
 
 		if nt, ok := t.(*dsl.NamedType); ok {
